@@ -77,6 +77,35 @@ func vxH_C06_persistFault() {
 		second = fixed('a', vxOpsSetDel)
 	}
 	po := StorePersistOptions{CompactionConcern: CompactionConcern(vxChoose(3))}
+	// optionally the faulty round also writes a child collection
+	var childEnt []vxEnt
+	if bigHistory && vxChoose(2) == 1 {
+		// (only with the fixed-key history: symbolic keys make every
+		// additional segment expensive)
+		childEnt = fixed('c', vxOpsSet)
+	}
+	mkSecond := func() *segmentStack {
+		h := vxHigher(opts, second)
+		if childEnt != nil {
+			cs := vxHigher(opts, childEnt)
+			cs.incarNum = 1
+			h.childSegStacks = map[string]*segmentStack{"c": cs}
+		}
+		return h
+	}
+	childOK := func(tag string, snap Snapshot) {
+		if childEnt == nil {
+			return
+		}
+		var CK vxKey
+		CK.n, CK.b[0] = 1, 'c'
+		var cgot []byte
+		if cs, _ := snap.ChildCollectionSnapshot("c"); cs != nil {
+			cgot, _ = cs.Get([]byte{'c'}, ReadOptions{})
+			cs.Close()
+		}
+		vxAssert(tag+"-contains-the-child-batch", vxGotIs(cgot, vxRefGet(CK, childEnt)))
+	}
 	// fault window
 	fs.nops = 0
 	fs.failAt = vxChoose(16)
@@ -87,7 +116,7 @@ func vxH_C06_persistFault() {
 	if vxChoose(2) == 1 {
 		fs.shortLen = 1 // a failing write writes 1 byte and reports no error
 	}
-	s2, perr := store.Persist(vxHigher(opts, second), po)
+	s2, perr := store.Persist(mkSecond(), po)
 	vxQuiesce()
 	fired := fs.faulted > 0
 	fs.failAt = -1
@@ -105,6 +134,7 @@ func vxH_C06_persistFault() {
 		vxAssert("success-get-ok", gerr == nil)
 		vxObserveBytes("after-success", got)
 		vxAssert("reported-success-contains-the-batch", vxGotIs(got, vxRefGet(K, all...)))
+		childOK("reported-success", cur)
 		s2.Close()
 	} else {
 		vxReach("round-failed")
@@ -121,15 +151,39 @@ func vxH_C06_persistFault() {
 			vxAssert("failed-round-keeps-previous-file", found)
 		}
 		// operations succeed again: persistence catches up
-		s3, rerr := store.Persist(vxHigher(opts, second), po)
+		// (with the same concern, or by plain appending to the old file)
+		rpo := po
+		if bigHistory && vxChoose(2) == 1 {
+			rpo = StorePersistOptions{}
+		}
+		s3, rerr := store.Persist(mkSecond(), rpo)
 		vxAssert("retry-ok", rerr == nil)
 		vxQuiesce()
 		if rerr == nil {
 			g3, g3err := s3.Get(kb, ReadOptions{})
 			vxAssert("retry-get-ok", g3err == nil)
 			vxAssert("retry-catches-up", vxGotIs(g3, vxRefGet(K, all...)))
+			childOK("retry", s3)
 			s3.Close()
 		}
+	}
+	// one more appended round: whatever the failed round left behind must
+	// not be preferred to the file that has this round
+	var third []vxEnt
+	if bigHistory {
+		third = fixed('q', vxOpsSet)
+		h4 := vxHigher(opts, third)
+		if childEnt != nil {
+			// a higher snapshot lists every live child collection (one that
+			// is missing counts as deleted), here without new segments
+			h4.childSegStacks = map[string]*segmentStack{"c": {options: opts, refs: 1, incarNum: 1}}
+		}
+		s4, terr := store.Persist(h4, StorePersistOptions{})
+		vxAssert("later-round-ok", terr == nil)
+		if terr == nil {
+			s4.Close()
+		}
+		all = append(all, third)
 	}
 	cur.Close()
 	store.Close()
@@ -143,6 +197,13 @@ func vxH_C06_persistFault() {
 		vxAssert("reopen-get-ok", rgerr == nil)
 		vxObserveBytes("reopen", rgot)
 		vxAssert("reopen-contains-everything-reported", vxGotIs(rgot, vxRefGet(K, all...)))
+		childOK("reopen", rs)
+		if third != nil {
+			var QK vxKey
+			QK.n, QK.b[0] = 1, 'q'
+			qgot, _ := rs.Get([]byte{'q'}, ReadOptions{})
+			vxAssert("reopen-contains-the-later-round", vxGotIs(qgot, vxRefGet(QK, third)))
+		}
 		rs.Close()
 		store2.Close()
 	}
